@@ -205,6 +205,7 @@ def template_case(r, quick):
 
 GSTRUCT = """struct Box<T> { T v; };
 struct Pair<A, B> { A a; B b; };
+struct Acct<T> { const T id; T bal; int[2] tag; };
 """
 
 
@@ -222,8 +223,24 @@ def struct_case(r):
                 uses.append(("Pair", [b, a]))
     g, m = [], []
     mdefs = {}
+    # member qualifiers and array members survive instantiation: the first store to a const member is its initialisation, the
+    # second is rejected — in the generic program exactly where it is rejected in the twin
+    acct = None
+    if r.chance(40):
+        x = r.choice(["tiny", "short", "int", "long"])
+        acct = x
+        uses.append(("Acct", [x]))
     for k, (n, ts) in enumerate(uses):
         mn = mono_name(n, ts)
+        if n == "Acct":
+            mdefs[mn] = "struct %s { const %s id; %s bal; int[2] tag; };\n" % (mn, ts[0], ts[0])
+            again = r.chance(60)
+            for (T, out) in (("Acct<%s>" % ts[0], g), (mn, m)):
+                out.append("    %s ac%d;\n    ac%d.id = 7;\n    ac%d.bal = %s;\n    ac%d.tag[1] = 5;\n    println(ac%d.id, ac%d.bal, ac%d.tag[1]);\n" % (
+                    T, k, k, k, SAMPLES[ts[0]][k % 3], k, k, k, k))
+                if again:
+                    out.append("    println(\"second store\");\n    ac%d.id = 8;\n    println(\"accepted\", ac%d.id);\n" % (k, k))
+            continue
         if n == "Box":
             mdefs[mn] = "struct %s { %s v; };\n" % (mn, ts[0])
             for (T, out) in (("Box<%s>" % ts[0], g), (mn, m)):
@@ -236,7 +253,7 @@ def struct_case(r):
     # read everything again at the end (a later instantiation must not have disturbed an earlier value)
     tail = []
     for k, (n, ts) in enumerate(uses):
-        tail.append("    println(b%d.v);\n" % k if n == "Box" else "    println(q%d.a, q%d.b);\n" % (k, k))
+        tail.append("    println(b%d.v);\n" % k if n == "Box" else ("    println(ac%d.id, ac%d.bal);\n" % (k, k) if n == "Acct" else "    println(q%d.a, q%d.b);\n" % (k, k)))
     gsrc = GSTRUCT + "int main() {\n" + "".join(g) + "".join(tail) + "    println(\"END\");\n    return 0;\n}\n"
     msrc = "".join(mdefs.values()) + "int main() {\n" + "".join(m) + "".join(tail) + "    println(\"END\");\n    return 0;\n}\n"
     return gsrc, msrc, ["%s<%s>" % (n, ",".join(ts)) for n, ts in uses]
